@@ -190,6 +190,9 @@ def check_c08(prop, tier, seed):
         items_ = d.get('items', [])
         if any(len({x['n'] for x in b['items']}) > it['cache'] for b in it['steps']):
             shape = 'cache_lt_batch'      # more distinct named statements in one batch than the cache holds
+        elif any(b['c'] == d.get('client') and any(x['k'] == 'P' and x.get('q') == 'bad' and any(y['k'] == 'C' for y in b['items'][i + 1:])
+                                                     for i, x in enumerate(b['items'])) for b in it['steps']):
+            shape = 'close_behind_error'  # this client sent a Close behind a failing Parse in one batch (a server skips it)
         elif any(x['k'] == 'P' and x.get('q') == 'bad' for b in it['steps'] for x in b['items']):
             shape = 'after_error_in_batch'
         else:
